@@ -73,7 +73,7 @@ FieldLaw(snap, m, s) ==
                            /\ s.mapval = IF V = {} THEN "" ELSE e.fields[MinOf(V)].full)
   /\ (s.msg # "" /\ ~s.msgph => (s.map = (\E k \in 1..Len(snap.msgs) : snap.msgs[k].full = s.msg /\ snap.msgs[k].mapentry))
                                  \/ (\A k \in 1..Len(snap.msgs) : snap.msgs[k].full # s.msg))
-  /\ (s.defenum # "" => s.kind = KEnum /\ s.hd)
+  /\ (s.defenum # "" => s.hd /\ (s.kind = KEnum \/ (s.kind = 0 /\ s.enumph)))
 
 MsgLaw(snap, m) ==
   /\ ListLaw(m.fields) /\ ListLaw(m.oneofs)
